@@ -312,7 +312,7 @@ func caseC06(c *Ctx) {
 			return
 		}
 		if out.Err != nil {
-			if st.kind == "empty" || st.kind == "missing" {
+			if st.kind == "empty" || st.kind == "missing" || st.kind == "deep-path" {
 				if !injected && realFail == "" {
 					fail("C06:unexplained-error:"+mode, "nothing pre-exists and no filesystem operation failed, but the call returned %v", out.Err)
 				}
